@@ -45,11 +45,12 @@ Definition api_obs_eqb (m : api_outcome) (o : api_obs) : bool :=
   match m, o with ASpec, OASpec | AUI, OAUI | ARouter, OARouter => true | _, _ => false end.
 
 (* the page hands on the configured spec URL: literally when it is made of URL-safe bytes; in any case the request a
-   browser makes for the reference has the path of the request it would make for the spec URL itself *)
+   browser makes for the reference has the path of the request it would make for the spec URL itself. Up to cleaning:
+   whether an encoded dot segment is resolved by the client or left to the server is not the page's business. *)
 Definition ref_faithful (spec_url r : bytes) (ref_path want_path : option bytes) : bool :=
   (negb (url_safe spec_url) || bytes_eqb r spec_url) &&
   match want_path with
-  | Some w => match ref_path with Some p => bytes_eqb p w | None => false end
+  | Some w => match ref_path with Some p => bytes_eqb (clean p) (clean w) | None => false end
   | None => true
   end.
 
